@@ -2,7 +2,7 @@
 from vlib import Rng
 import sockgen as G
 
-RULE = ("also: several simultaneously open connections to one server with interleaved operations (family srvi); " "family srv: the real ServerPrivate::process wiring + Handler trees (depth <= 3, <= 3 redirects and <= 3 sub-handlers per node, "
+RULE = ("also: chains of 17..30 nested handlers; " "also: several simultaneously open connections to one server with interleaved operations (family srvi); " "family srv: the real ServerPrivate::process wiring + Handler trees (depth <= 3, <= 3 redirects and <= 3 sub-handlers per node, "
         "0-3 accepting/refusing instrumented middleware per node) over a pattern vocabulary (literals, classes, captures, wildcards; "
         "sub-handler patterns start-anchored) x request paths over a segment alphabet incl. percent-encoded reserved/control characters; "
         "QRegExp answers tabulated by calling QRegExp directly; non-trivial = distinct case")
@@ -62,6 +62,23 @@ def build(tier, seed, ctx, refuse_ok, n):
             raw = b"/a" + raw[1:]
         path = decode(raw)
         cases.append((tree, raw, path))
+    # deep chains: 17..30 handlers nested through the pattern ^a/, with middleware (refusing at a chosen depth), a redirect or
+    # a processing handler somewhere far down: nothing in the routing may depend on the depth
+    for j in range(8 if tier == "quick" else 60):
+        depth = rng.choice([16, 17, 18, 20, 25, 30])
+        special = rng.range(max(0, depth - 4), depth)          # the level that carries the interesting part
+        ids = [5000 + 100 * j, 6000 + 100 * j]
+        node = None
+        for lvl in range(depth, -1, -1):
+            ids[0] += 1; ids[1] += 1
+            mws = []
+            if refuse_ok and (lvl == special or rng.chance(1, 6)):
+                mws.append([ids[0], 0 if (lvl == special and j % 2 == 0) else rng.choice([1, 2])])
+            redirs = [[b"^x$", b"/deep/%d" % lvl]] if (lvl == special and j % 4 == 1) else []
+            subs = [[b"^a/", node]] if node is not None else []
+            node = [mws, redirs, subs, 1 if lvl in (depth, special) else rng.choice([0, 1]), ids[1]]
+        raw = b"/" + b"a/" * rng.choice([depth, special, depth - 1]) + b"x"
+        cases.append((node, raw, decode(raw)))
     ver, utab = G.oracle(ctx, [c[1] for c in cases])
     upath = {row[0]: row[2] for row in utab}
     cases = [(t, raw, upath.get(raw, path)) for t, raw, path in cases]
